@@ -4,6 +4,7 @@
 // Output: one compact line per cell:  <index> <A|R> <shots_ok> <wf_fail_key|-> <error text>
 #include <cstdlib>
 #include <fstream>
+#include <limits>
 #include <sstream>
 
 #include <bxdecay0/bb_utils.h>
@@ -29,6 +30,8 @@ int main(int argc, char ** argv)
     int level, mode, wkind, nshots;
     double e1, e2;
     ls >> name >> level >> mode >> wkind >> e1 >> e2 >> nshots;
+    if (e1 == -999.0) e1 = std::numeric_limits<double>::quiet_NaN(); // half-open windows: one limit undefined
+    if (e2 == -999.0) e2 = std::numeric_limits<double>::quiet_NaN();
     bxdecay0::decay0_generator g;
     Tape t(seed, (uint64_t)idx);
     std::string err;
